@@ -259,8 +259,38 @@ def spec_len(ctx, m, method):
 
 
 # ---------------------------------------------------------------- FastRollingChecksum (lazy mod)
+def _field_ever_reduced(F, type_path, field):
+    """some method of the type stores `<expr> % <modulus>` (or `%=`) into self.<field>"""
+    for pth, hb in list(F.bodies.items()) + list(getattr(F, 'inlined', {}).items()):
+        if not pth.startswith(type_path + '::') or '::tests' in pth:
+            continue
+        fl = flow_of(hb)
+        for bi in fl.cfg.reachable():
+            for st in hb.blocks[bi]['stmts']:
+                pr = st['dst']['proj']
+                if pr and isinstance(pr[-1], dict) and pr[-1].get('name') == field:
+                    if _rv_is_rem(fl, st['rv']):
+                        return True
+    return False
+
+
+def _rv_is_rem(fl, rv, depth=0):
+    if rv['k'] == 'bin' and rv['op'] == 'Rem':
+        return True
+    if rv['k'] == 'use' and rv['ops'][0]['k'] != 'const' and depth < 3:
+        return any(o.kind == 'op' and o.key == 'Rem' for o in fl.origins(rv['ops'][0]))
+    return False
+
+
 def lazy(ctx, F, tag, M, K):
     T = 'FastRollingChecksum'
+    if F.body(FC + '::roll') is not None and not _field_ever_reduced(F, FC, 'a'):
+        # The type keeps the byte sum EXACT (no method ever stores a residue into `a`).  Its bounds then rest on a relation the
+        # polynomial range domain does not carry: the byte `roll` subtracts is one of the summands (so `a + new - old` cannot go
+        # negative) and the sum of a window of n bytes is at most 255 n.  Not decided here.  (A type that reduces `a` in one
+        # method and subtracts without a bias in another is judged by the rules below - that mix is what goes wrong.)
+        ctx.undecided('C17.O1', '%s keeps an exact, never reduced byte sum in `a`: that a - old + new stays within bounds follows from the window contents, a relation outside the range domain' % T)
+        return
     box = Box({'n': (0, NMAX)})
     m = run_method(ctx, F, FC + '::new', M, box, {1: ('slice', 'data')}, 'C17.O1', T + '::new')
     obl_report(ctx, 'C17.O1', T + '::new' + tag, m)
